@@ -16,7 +16,9 @@ RULE = (
     "sets or the escaping exception class. Streams seq and grammar enumerate EVERY sequence up to the stated length "
     "over each alphabet (block, inner, end, inline, unknown, odd names such as '' and 'end', raw/doc/comment); "
     "valid draws structured well-formed templates from the block grammar, mutated applies 1-3 token edits to them; "
-    "styles varies whitespace control and filler. Non-trivial: at least two tag tokens, at least one of which opens "
+    "styles varies whitespace control and filler; innermaps passes six caller-supplied inner_tags maps; exprs gives "
+    "tags malformed expressions (model audits the tokens the real lexer produced); delims uses custom delimiters and "
+    "template comments; entrypoints compares the three public entry points. Non-trivial: at least two tag tokens, at least one of which opens "
     "or closes a block (so the block stack is exercised)."
 )
 TRUSTED_BASE = [
@@ -28,12 +30,12 @@ TRUSTED_BASE = [
 ]
 MANIFEST = {
     "technique": "Lean 4 proof (induction over token lists; simulation between the parser's frame stack and the audit's block stack) + translator-regenerated tag tables + exhaustive differential correspondence of lexer, parser grammar and audit",
-    "text": "audit_total: for every table and every token list the audit returns (the guarded pop never fails). strict_parse_implies_clean_partial: for a consistent table every token list accepted by the restricted block grammar (= the strict parser's grammar minus two listed behaviours) is audited clean; both generated tables are proved consistent by kernel evaluation; the two excluded behaviours are kernel-checked counterexamples and known findings. lexer_output_shaped + source_strict_parse_implies_clean_partial lift this to sources (the lexer never leaves tag tokens inside a comment). unknown_reported / unknown_end_reported / unclosed_reported / unclosed_reported_count: unknown names and block tags that occur more often than their end tag always appear in the report, for every table and token list. The model (lexer at tag level, parser grammar, audit) is compared with the real code on every tag sequence up to length 5 (quick) / 6-8 (thorough) over eleven alphabets and on generated templates, in both environments.",
+    "text": "parser_names_agree_*: the tag names extracted from every Tag.parse source (parse_block/eat_block/expect/is_tag) equal the grammar model's end+inner names. strict_parse_implies_clean_any_map/superset_map_partial: the clean-report theorem for caller-supplied inner_tags maps. audit_total: for every table and every token list the audit returns (the guarded pop never fails). strict_parse_implies_clean_partial: for a consistent table every token list accepted by the restricted block grammar (= the strict parser's grammar minus two listed behaviours) is audited clean; both generated tables are proved consistent by kernel evaluation; the two excluded behaviours are kernel-checked counterexamples and known findings. lexer_output_shaped + source_strict_parse_implies_clean_partial lift this to sources (the lexer never leaves tag tokens inside a comment). unknown_reported / unknown_end_reported / unclosed_reported / unclosed_reported_count: unknown names and block tags that occur more often than their end tag always appear in the report, for every table and token list. The model (lexer at tag level, parser grammar, audit) is compared with the real code on every tag sequence up to length 5 (quick) / 6-8 (thorough) over eleven alphabets and on generated templates, in both environments.",
     "note": "Trusted: Lean kernel, the hand model of _audit_tags / lexer / parser grammar (validated exhaustively on short sequences, sampled on long ones), the table emitter, the harness. Tag expressions are fixed well-formed strings: the claim is about block structure. Two behaviours of the unchanged tree violate the false-alarm sentence and are listed known findings (break/continue outside a for block; tags inside the region a LAX-mode if/unless skips after an extraneous else).",
 }
 ASSUMPTIONS = [
-    "tag arguments are well-formed (fixed per tag name); sources are built from whole tags, so the lexer never sees an unterminated '{%' or '{{'",
-    "default inner-tag map (the inner_tags= argument of analyze_tags_from_string is not varied)",
+    "for the parses-implies-clean sentence tag arguments are well-formed (fixed per tag name; stream exprs drops this for totality and reporting); sources are built from whole tags, so the lexer never sees an unterminated '{%' or '{{'",
+    "caller-supplied inner_tags maps are mappings from str to lists of str",
     "strict_parse_implies_clean is proved for the restricted grammar (no bare break/continue, no extraneous-else skipping); the full statement is refuted by kernel-checked counterexamples mirrored by known findings",
 ]
 
@@ -79,13 +81,14 @@ def get_env(name: str):
     return env
 
 
-def observe(envname: str, tags, style=0):
+def observe(envname: str, tags, style=0, inner=None, src=None, env=None):
     """Run the real lexer, strict parser and tag audit on the rendered source."""
     from liquid.exceptions import LiquidError
     from liquid.token import TOKEN_TAG
 
-    env = get_env(envname)
-    src = render(tags, style)
+    env = env or get_env(envname)
+    if src is None:
+        src = render(tags, style)
     try:
         toks = [t.value for t in env.tokenizer()(src) if t.kind == TOKEN_TAG]
     except LiquidError:
@@ -98,7 +101,7 @@ def observe(envname: str, tags, style=0):
     except Exception as e:  # from_string promises LiquidError only (C02's business); keep the class
         parse = "EXC:" + type(e).__name__
     try:
-        a = env.analyze_tags_from_string(src)
+        a = env.analyze_tags_from_string(src, inner_tags=inner) if inner is not None else env.analyze_tags_from_string(src)
         audit = {
             "unclosed": sorted(a.unclosed_tags),
             "unexpected": sorted(a.unexpected_tags),
@@ -138,9 +141,13 @@ def strip_junk(envname, toks):
     return out, junk
 
 
-def direct_oracle(envname, obs):
-    """The property, stated on the implementation's observation."""
+def direct_oracle(envname, obs, inner_map=None, false_alarms=True):
+    """The property, stated on the implementation's observation.  `inner_map`: the caller-supplied inner-tag map
+    in force (None/empty: the default); `false_alarms=False` switches sentence 2 off (maps that do not cover the
+    default map make the caller, not the audit, responsible for reports on well-formed templates)."""
     from liquid.analyze_tags import DEFAULT_INNER_TAG_MAP
+
+    inner_map = inner_map or DEFAULT_INNER_TAG_MAP
 
     toks, audit, parse = obs["tokens"], obs["audit"], obs["parse"]
     if toks == "lexer-error":
@@ -151,7 +158,7 @@ def direct_oracle(envname, obs):
         return (f"raises|{audit[4:]}|{kind}", f"analyze_tags_from_string raised {audit[4:]} on tags {toks}")
     env = get_env(envname)
     # sentence 2: a source that parses in strict mode gets a clean report
-    if parse is True:
+    if parse is True and false_alarms:
         alarms = _alarms(audit)
         if alarms:
             stripped, junk = strip_junk(envname, toks)
@@ -171,10 +178,12 @@ def direct_oracle(envname, obs):
             k, n = sorted(rest)[0]
             return (f"false-alarm|{k}|{n}", f"source parses in strict mode but {n!r} is reported {k}: {audit}")
     # sentence 3a: unknown tag names are always reported
-    inner = {x for v in DEFAULT_INNER_TAG_MAP.values() for x in v}
+    inner = {x for v in inner_map.values() for x in v}
     ends = {t.end for t in env.tags.values() if t.block and t.end}
     unknown = set(audit["unknown"])
     for t in toks:
+        if t in inner and t in unknown and not t.startswith("end"):
+            return (f"inner-tag-reported-unknown|{t}", f"{t!r} is an inner tag in the inner-tag map in force yet reported unknown: {audit}")
         if t in env.tags or t in inner:
             continue
         if not t.startswith("end"):
@@ -548,5 +557,186 @@ class EntryPointStream(MutatedStream):
         return [case["env"], "alarms" if self.nontrivial(case, obs) else "clean"]
 
 
+# ---- caller-supplied inner-tag maps ------------------------------------------------------------------------
+INNER_MAPS = {
+    "empty": {},  # falsy: analyze_tags falls back to DEFAULT_INNER_TAG_MAP
+    "default-reordered": {"translate": ["plural"], "unless": ["elsif", "else"], "case": ["else", "when"], "if": ["elsif", "else"], "for": ["else", "continue", "break"]},
+    "superset": {"for": ["break", "continue", "else", "foo"], "if": ["else", "elsif", "field"], "case": ["when", "else"], "unless": ["else", "elsif"], "translate": ["plural"], "form": ["field", "else"]},
+    "if-without-else": {"for": ["break", "continue", "else"], "if": ["elsif"], "case": ["when", "else"], "unless": ["else", "elsif"], "translate": ["plural"]},
+    "only-if": {"if": ["else"]},
+    "custom-block": {"form": ["field"], "if": ["else", "elsif"]},
+}
+
+
+def covers_default(m) -> bool:
+    from liquid.analyze_tags import DEFAULT_INNER_TAG_MAP
+
+    m = m or DEFAULT_INNER_TAG_MAP
+    return all(x in m.get(b, ()) for b, v in DEFAULT_INNER_TAG_MAP.items() for x in v)
+
+
+class InnerMapStream(TagStream):
+    """analyze_tags_from_string(source, inner_tags=m) for caller-supplied maps: empty (falls back to the default),
+    the default reordered, a superset, maps that drop entries, maps with a custom block.  Model: `withInner`."""
+
+    name = "innermaps"
+
+    def cases(self, ctx):
+        names = ["if", "else", "elsif", "endif", "for", "break", "endfor", "form", "field", "endform", "foo"]
+        out = []
+        for mname in INNER_MAPS:
+            for n in range(0, ctx.scale(3, 4) + 1):
+                for seq in itertools.product(names, repeat=n):
+                    out.append({"env": "default", "map": mname, "tags": list(seq)})
+        for mname in INNER_MAPS:
+            for seq in itertools.product(["translate", "plural", "endtranslate", "if", "else", "endif"], repeat=3):
+                out.append({"env": "extra", "map": mname, "tags": list(seq)})
+        return out
+
+    def impl(self, case):
+        return observe(case["env"], case["tags"], 0, inner=INNER_MAPS[case["map"]])
+
+    def line(self, case):
+        return ["c21inner", case["env"], [[k, list(v)] for k, v in INNER_MAPS[case["map"]].items()], case["tags"]]
+
+    def oracle(self, case, obs):
+        m = INNER_MAPS[case["map"]]
+        return direct_oracle(case["env"], obs, inner_map=m, false_alarms=covers_default(m))
+
+    def tags(self, case, obs):
+        return super().tags(case, obs) + ["map:" + case["map"]]
+
+
+# ---- malformed tag expressions -----------------------------------------------------------------------------
+BAD_EXPRS = ["", "%", "}}", "{{", "'", '"open', "x |", "| |", "in in in", "==", "a b c", "(", "1..", "\n", "{%", "-", "x %} y {% echo", "&& ||", "\\", "é√", "{{ x }}"]
+
+
+def render_exprs(tags, exprs):
+    out = ["t"]
+    for n, e in zip(tags, exprs):
+        a = ARGS.get(n, "") if e is None else e
+        out.append("{% " + n + (" " + a if a else "") + " %}t")
+    return "".join(out)
+
+
+class ExprStream(TagStream):
+    """Tags with malformed expressions.  The audit never parses expressions, so totality and the reporting
+    sentences must hold whatever they contain; the model audits the tag tokens the real lexer produced
+    (an expression may hide or create tag tokens, e.g. `raw x` is no raw block, `x %} y {% echo` is two tags)."""
+
+    name = "exprs"
+    exhaustive = False
+
+    def cases(self, ctx):
+        out = []
+        for env in ("default", "extra"):
+            for n in DEFAULT_NAMES:
+                for e in BAD_EXPRS:
+                    out.append({"env": env, "tags": [n], "exprs": [e]})
+                    out.append({"env": env, "tags": ["if", n, "endif"], "exprs": [None, e, e]})
+        rng = ctx.rng_for("exprs")
+        for i in range(ctx.scale(2000, 20000)):
+            env = "extra" if i % 2 else "default"
+            tags = gen_nodes(rng, env, 0, False, [rng.range(3, 30)])
+            if rng.chance(50) and tags:
+                tags.insert(rng.below(len(tags) + 1), rng.choice(DEFAULT_NAMES))
+            exprs = [rng.choice(BAD_EXPRS) if rng.chance(45) else None for _ in tags]
+            out.append({"env": env, "tags": tags, "exprs": exprs})
+        return out
+
+    def shrink_candidates(self, case):
+        for i in range(len(case["tags"])):
+            yield {**case, "tags": case["tags"][:i] + case["tags"][i + 1 :], "exprs": case["exprs"][:i] + case["exprs"][i + 1 :]}
+        for i, e in enumerate(case["exprs"]):
+            if e is not None:
+                yield {**case, "exprs": case["exprs"][:i] + [None] + case["exprs"][i + 1 :]}
+
+    def impl(self, case):
+        return observe(case["env"], case["tags"], src=render_exprs(case["tags"], case["exprs"]))
+
+    def line(self, case):
+        return None
+
+    def line_obs(self, case, obs):
+        if not isinstance(obs["tokens"], list):
+            return None
+        return ["c21tok", case["env"], obs["tokens"]]
+
+    def compare_view(self, case, obs):
+        return {"tokens": obs["tokens"], "audit": obs["audit"]}
+
+    def canon_model(self, case, mobs):
+        m = super().canon_model(case, mobs)
+        if isinstance(m, dict) and "audit" in m:
+            return {"tokens": m["tokens"], "audit": m["audit"]}
+        return m
+
+    def tags(self, case, obs):
+        t = [case["env"], "parses" if obs["parse"] is True else "rejected"]
+        if isinstance(obs["audit"], dict):
+            t.append("clean" if not _alarms(obs["audit"]) else "reported")
+        else:
+            t.append("raised" if obs["audit"] != "not-run" else "lexer-error")
+        t.append("bad-exprs:%d" % min(3, sum(e is not None for e in case["exprs"])))
+        return t
+
+
+# ---- custom delimiters and template comments ---------------------------------------------------------------
+DELIMS = {
+    "square": dict(tag_start_string="[%", tag_end_string="%]", statement_start_string="[[", statement_end_string="]]"),
+    "angle": dict(tag_start_string="<?", tag_end_string="?>", statement_start_string="<<", statement_end_string=">>"),
+    "comments": dict(template_comments=True),
+    "comments-custom": dict(template_comments=True, comment_start_string="/*", comment_end_string="*/", tag_start_string="<%", tag_end_string="%>"),
+}
+_DENVS: dict = {}
+
+
+def delim_env(name):
+    env = _DENVS.get(name)
+    if env is None:
+        from liquid import Environment, Mode
+
+        env = Environment(tolerance=Mode.STRICT, **DELIMS[name])
+        _DENVS[name] = env
+    return env
+
+
+def render_delims(tags, name):
+    d = DELIMS[name]
+    l, r = d.get("tag_start_string", "{%"), d.get("tag_end_string", "%}")
+    sl, sr = d.get("statement_start_string", "{{"), d.get("statement_end_string", "}}")
+    fill = "t" + sl + " x " + sr
+    if d.get("template_comments"):
+        fill += d.get("comment_start_string", "{#") + " note " + d.get("comment_end_string", "#}")
+    out = [fill]
+    for n in tags:
+        a = ARGS.get(n, "")
+        out.append(l + " " + n + (" " + a if a else "") + " " + r + fill)
+    return "".join(out)
+
+
+class DelimStream(TagStream):
+    """Environments with custom tag/statement delimiters and with shorthand template comments: the tag audit
+    (and the lexer's raw/doc/comment swallowing, and the parser) must behave exactly as with the defaults."""
+
+    name = "delims"
+
+    def cases(self, ctx):
+        names = ["if", "else", "endif", "raw", "endraw", "comment", "endcomment", "doc", "enddoc", "for", "break", "endfor", "foo", "endfoo"]
+        out = []
+        for d in DELIMS:
+            for n in range(0, ctx.scale(3, 4) + 1):
+                for seq in itertools.product(names, repeat=n):
+                    out.append({"env": "default", "delims": d, "tags": list(seq)})
+        return out
+
+    def impl(self, case):
+        return observe("default", case["tags"], src=render_delims(case["tags"], case["delims"]), env=delim_env(case["delims"]))
+
+    def tags(self, case, obs):
+        return super().tags(case, obs) + ["delims:" + case["delims"]]
+
+
 def streams(ctx):
-    return [SeqStream(), GrammarStream(), StyleStream(), ValidStream(), MutatedStream(), EntryPointStream()]
+    return [SeqStream(), GrammarStream(), StyleStream(), ValidStream(), MutatedStream(), EntryPointStream(),
+            InnerMapStream(), ExprStream(), DelimStream()]
